@@ -13,6 +13,8 @@ def key_fn(case, obs, verdict):
         return "cli.readConfig:" + v[4:]
     if v.startswith("ph:"):
         return "engine+phout:" + v[3:]
+    if v.startswith("comp:"):
+        return "schedule.composite+coreutil.Waiter:" + v[5:]
     if v.startswith("pool:"):
         return "engine.instancePool:" + v[5:]
     if v.startswith("prof:"):
@@ -26,14 +28,14 @@ def run(ctx):
         rule=("non-trivial: w cases with >= 2 Wait calls or a token that is >= 2 s late / judged slow; "
               "eng cases in which some token is >= 2 s late at Shoot entry or discard report; prof cases with an unlimited tail or a token >= 2 s late; "
               "pool cases with more than one instance or a token >= 2 s late / discarded; "
-              "st and near cases always; distinct = distinct case lines"),
+              "comp cases always; st and near cases always; distinct = distinct case lines"),
         key_fn=key_fn,
         translators=[("consts", "ConstGen.v"), ("gofn-waiter", "GoFnWaiterGen.v"), ("pooldeps", "PoolDepsGen.v")],
         bridge_files=["Gen/Waiter_bridge.v", "Gen/GoFnWaiter_bridge.v", "Gen/PoolDeps_bridge.v"],
         trusted=[
             "translator harness/cmd/translate consts (MaxOverdueDuration, DiscardedShootCodeError, DiscardedShootTag compiled from /repo)",
             "translator harness/cmd/translate pooldeps (the boolean expressions carrying discard_overflow: startInstances' instanceSharedDeps literal, "
-            "buildNewInstanceSchedule's own-schedule condition, instance.Run's fire condition and discard report, re-read from core/engine)",
+            "buildNewInstanceSchedule's own-schedule condition, instance.Run's fire condition and discard report, re-read from core/engine; phoutAggregator.Report being exactly a plain send and Run draining the channel, re-read from core/aggregator/netsample/phout.go)",
             "extraction: ExtrOcamlBasic only; OCaml driver ocaml/C04/main.ml + ocaml/common/conv.ml",
             "correspondence harness harness/cmd/hC04: real coreutil.Waiter on a mock schedule and real engine with a slow mock gun; "
             "booleans/inequalities only, planned margins >= 250 ms; an attempt during which a canary goroutine saw the machine unable to keep time (5 ms sleep overshooting by > 50 ms) is repeated",
